@@ -1848,15 +1848,24 @@ _verify(VB* self)
     PyObject* changed_result;
 
     if (self->_verify_ro != NULL && self->_verify_generations != NULL) {
-        PyObject* generations;
+        PyObject *generations, *ro, *verified;
         int changed;
 
-        generations = _generations_tuple(self->_verify_ro);
-        if (generations == NULL)
+        /* Reading the generations can run arbitrary code, including
+           ``changed()``, which releases both tuples: keep them alive. */
+        ro = self->_verify_ro;
+        Py_INCREF(ro);
+        verified = self->_verify_generations;
+        Py_INCREF(verified);
+        generations = _generations_tuple(ro);
+        Py_DECREF(ro);
+        if (generations == NULL) {
+            Py_DECREF(verified);
             return -1;
+        }
 
-        changed = PyObject_RichCompareBool(
-          self->_verify_generations, generations, Py_NE);
+        changed = PyObject_RichCompareBool(verified, generations, Py_NE);
+        Py_DECREF(verified);
         Py_DECREF(generations);
         if (changed == -1)
             return -1;
